@@ -195,6 +195,14 @@ fn main() {
                 if rng.chance(1, 3) { em.case(cmp, &tags("f64", "plain"), &desc("f64", "plain"),
                     || format!("(run_feat_p {} true {} {} {})", fi, coq_nat(w), mp_coq, xs_coq),
                     || out_cells(guarded(|| call_plain!(fi_, xs, w, mp, Vec<f64>)))); }
+                // f32 ELEMENTS (NaN null; the dyadic values are exact in f32): the closures must widen each element to f64
+                // before accumulating, so the result is the f64 result
+                if rng.chance(1, 4) && xs.iter().all(|x| x.is_nan() || (*x as f32) as f64 == *x) {
+                    let x32: Vec<f32> = xs.iter().map(|x| *x as f32).collect();
+                    em.case(cmp, &tags("f32in", "vec"), &desc("f32in", "vec"),
+                        || format!("(run_feat_f {} true {} {} {})", fi, coq_nat(w), mp_coq, xs_coq),
+                        || out_cells(guarded(|| call_valid!(fi_, x32, w, mp, Vec<f64>))));
+                }
                 // integer elements (never null): both families
                 if nulls == 0 && xs.iter().all(|x| x.fract() == 0.0) {
                     let xi: Vec<i32> = xs.iter().map(|x| *x as i32).collect();
